@@ -9,6 +9,16 @@ import warnings
 
 
 def run_line_case(case):
+    if case.get("preempt_frac"):
+        n = _run(dict(case, preempt=[], preempt_frac=None)).get("choices", 0)
+        pts = sorted({min(max(int(f * n), 0), max(n - 1, 0)) for f in case["preempt_frac"]})
+        r = _run(dict(case, preempt=pts, preempt_frac=None))
+        r["preempt_used"] = pts
+        return r
+    return _run(case)
+
+
+def _run(case):
     from harness.sim import sched as S
     from harness.sim.boot import boot
     boot()
